@@ -21,7 +21,8 @@ RULE = ("Rule-based state machine holding one long-lived Sampler, QuickSampler a
         "constructed object with the same settings returns the same distribution (1e-9), the identical seeded "
         "sample result, the identical sample() draw, an analysis result with equal values and exactly the same "
         "attributes, or raises the same exception type. Non-trivial = >= 2 reconfigurations of different kinds "
-        "followed by a sampling call not preceded by a distribution read; distinct = distinct recorded history.")
+        "followed by a sampling call not preceded by a distribution read; distinct = distinct recorded history."
+        " Also: in-place edits confined to the last modes of heralded circuits, 12-40 mode circuits, refused assignments followed by further use, and the caller editing the dictionary a distribution read returned.")
 ASSUMPTIONS = [
     "only the reconfiguration kinds named in C11 are generated (attribute assignment, in-place mutation of "
     "circuit / parameters / source / detector, rules added to a PostSelection object after it was handed over)",
